@@ -1044,6 +1044,7 @@ fn check_history(ctx: &mut Ctx, tk: &Tk, fls: &[Fl], steps: &[Step]) {
     ctx.report.count("history:sequences");
     let mut abandoned_before = false;
     let mut nontrivial = false;
+    let mut gots: Vec<Vec<Token>> = vec![];
     for (i, st) in steps.iter().enumerate() {
         let fresh = match tokens_of(&mut build(tk, fls), &st.text) {
             Ok(t) => t,
@@ -1079,6 +1080,7 @@ fn check_history(ctx: &mut Ctx, tk: &Tk, fls: &[Fl], steps: &[Step]) {
                 case);
             return;
         }
+        gots.push(got.clone());
         if let Some(k) = st.take {
             if k < fresh.len() {
                 abandoned_before = true;
@@ -1090,6 +1092,22 @@ fn check_history(ctx: &mut Ctx, tk: &Tk, fls: &[Fl], steps: &[Step]) {
         }
     }
     ctx.report.case(&format!("history|{:?}|{:?}|{:?}", tk, fls, steps.iter().map(|s| (&s.text, s.take)).collect::<Vec<_>>()), nontrivial);
+    // the stateful model of SplitCompoundWords (buffer threaded through the streams, cleared as the
+    // source says) against the reused analyzer, when the compound splitter is the outermost filter
+    if let (Some(split @ Fl::Split(_)), true) = (fls.last(), *tk != Tk::Facet) {
+        let prefix = &fls[..fls.len() - 1];
+        let inners: Vec<Vec<Token>> = steps.iter().map(|s| tokens_of(&mut build(tk, prefix), &s.text).unwrap_or_default()).collect();
+        let all: Vec<Token> = inners.iter().flatten().cloned().collect();
+        let spec = filter_spec(split, &all);
+        let arg = inners.iter().zip(steps).map(|(inner, s)| format!("{}@{}", enc_tokens(inner), s.take.unwrap_or(usize::MAX / 2))).collect::<Vec<_>>().join("#");
+        let m = ctx.model.ask(&format!("C19 splithist {spec} {arg}"));
+        let r = gots.iter().map(|g| enc_tokens(g)).collect::<Vec<_>>().join("#");
+        ctx.report.count("history:stateful-split-model-compared");
+        if m != r {
+            ctx.report.violation("model", "C19:split-history-model-mismatch", format!("reused analyzer {:?}+{:?}: real {} stateful model {}", tk, fls, &r[..r.len().min(200)], &m[..m.len().min(200)]), case.clone());
+            return;
+        }
+    }
     // the fresh-analyzer token list of the last text against the model (and the full oracle)
     if let Some(last) = steps.last() {
         if last.text.len() <= 400 {
@@ -1258,6 +1276,7 @@ pub fn run(ctx: &mut Ctx) {
         "FacetTokenizer + filter chain (text buffer rewritten in place by filters) = model facetChain".into(),
         "SnippetGenerator::snippet: fragment, raw highlighted(), to_html() bytes (or panic) = model".into(),
         "collapse_overlapped_ranges = model collapse".into(),
+        "SplitCompoundWords as the outermost filter of a reused analyzer = stateful model (parts buffer threaded through abandoned streams, cleared per the extracted token_stream shape)".into(),
         "history independence: one analyzer reused over a sequence of texts, streams abandoned after k tokens, gives for every text (a prefix of) the fresh-analyzer token list, which is the stateless model's".into(),
         "SnippetGenerator::create over a real index = SnippetGenerator::new with 1/(1+doc_freq) scores".into(),
     ];
